@@ -199,6 +199,25 @@ pub fn err_json(e: &Error) -> Value {
     }
 }
 
+/// path strings of the protocol: bytes that are not valid UTF-8 travel as the private-use characters U+F780..U+F7FF
+pub fn pdec(s: &str) -> PathBuf {
+    use std::os::unix::ffi::OsStringExt;
+    let mut b = Vec::with_capacity(s.len());
+    for c in s.chars() {
+        let u = c as u32;
+        if (0xF780..=0xF7FF).contains(&u) {
+            b.push((u - 0xF700) as u8);
+        } else {
+            let mut buf = [0u8; 4];
+            b.extend_from_slice(c.encode_utf8(&mut buf).as_bytes());
+        }
+    }
+    PathBuf::from(std::ffi::OsString::from_vec(b))
+}
+pub fn pth(op: &Value, k: &str) -> PathBuf {
+    pdec(s(op, k))
+}
+
 pub fn meta_json(m: &cacache::Metadata) -> Value {
     json!({
         "key": m.key,
@@ -280,7 +299,7 @@ pub fn usize_list(op: &Value, k: &str) -> Vec<usize> {
 // ---------------------------------------------------------------- environment actions (plain std::fs, outside the API)
 pub fn env_act(a: &Value) -> Value {
     let act = s(a, "act");
-    let p = PathBuf::from(s(a, "path"));
+    let p = pth(a, "path");
     let r: std::io::Result<Value> = (|| {
         match act {
             "flip" => {
@@ -331,11 +350,11 @@ pub fn env_act(a: &Value) -> Value {
             }
             "symlink" => {
                 let _ = std::fs::remove_file(&p);
-                std::os::unix::fs::symlink(s(a, "target"), &p)?;
+                std::os::unix::fs::symlink(pth(a, "target"), &p)?;
                 Ok(json!({}))
             }
             "rename" => {
-                std::fs::rename(&p, s(a, "to"))?;
+                std::fs::rename(&p, pth(a, "to"))?;
                 Ok(json!({}))
             }
             "chdir" => {
@@ -354,7 +373,8 @@ pub fn env_act(a: &Value) -> Value {
 
 // ---------------------------------------------------------------- synchronous API ops
 fn sync_write(op: &Value) -> Value {
-    let cache = s(op, "cache");
+    let cache_pb = pth(op, "cache");
+    let cache: &Path = &cache_pb;
     let key = opt_s(op, "key");
     let data = get_data(op);
     let entry = s(op, "entry");
@@ -467,7 +487,8 @@ fn sync_write(op: &Value) -> Value {
 }
 
 fn sync_reader(op: &Value) -> Value {
-    let cache = s(op, "cache");
+    let cache_pb = pth(op, "cache");
+    let cache: &Path = &cache_pb;
     let r = match opt_s(op, "key") {
         Some(k) => cacache::SyncReader::open(cache, k),
         None => cacache::SyncReader::open_hash(cache, parse_sri(op, "sri")),
@@ -538,8 +559,9 @@ fn sync_reader(op: &Value) -> Value {
 }
 
 fn sync_extract(op: &Value, name: &str) -> Value {
-    let cache = s(op, "cache");
-    let to = PathBuf::from(s(op, "to"));
+    let cache_pb = pth(op, "cache");
+    let cache: &Path = &cache_pb;
+    let to = pth(op, "to");
     let key = opt_s(op, "key");
     let sri = || parse_sri(op, "sri");
     match name {
@@ -571,7 +593,7 @@ fn sync_extract(op: &Value, name: &str) -> Value {
     }
 }
 
-fn list_json(cache: &str, raw_index: bool) -> Value {
+fn list_json(cache: &Path, raw_index: bool) -> Value {
     let mut entries = Vec::new();
     let mut errs = Vec::new();
     let mut n = 0u64;
@@ -594,9 +616,11 @@ fn list_json(cache: &str, raw_index: bool) -> Value {
 }
 
 fn sync_link_to(op: &Value) -> Value {
-    let cache = s(op, "cache");
+    let cache_pb = pth(op, "cache");
+    let cache: &Path = &cache_pb;
     let key = opt_s(op, "key");
-    let target = s(op, "target");
+    let target_pb = pth(op, "target");
+    let target: &Path = &target_pb;
     match s(op, "entry") {
         "fn" => {
             return res_sri(match key {
@@ -641,7 +665,7 @@ fn sync_link_to(op: &Value) -> Value {
     }
     if let Some(d) = opt_s(op, "chdir_before_commit") {
         // the working directory changes between opening the linker and committing it
-        let _ = std::env::set_current_dir(d);
+        let _ = std::env::set_current_dir(pdec(d));
     }
     let mut v = res_sri(l.commit());
     v["got"] = bytes_json(&got);
@@ -649,7 +673,8 @@ fn sync_link_to(op: &Value) -> Value {
 }
 
 fn exec_sync(op: &Value) -> Value {
-    let cache = s(op, "cache");
+    let cache_pb = pth(op, "cache");
+    let cache: &Path = &cache_pb;
     match s(op, "op") {
         "write" => sync_write(op),
         "read" => res_bytes(match opt_s(op, "key") {
